@@ -320,7 +320,14 @@ def _calc_eval(o, env):
         nm = o[1]
         sn = nm.rsplit("::", 1)[-1]
         is_pop = lambda x: isinstance(x, tuple) and ((x[0] in ("try", "unwrap", "ok") and is_pop(x[1])) or (x[0] == "call" and x[1].endswith("call_mut")))
-        is_cnt = lambda x: isinstance(x, tuple) and x[0] == "call" and x[1].endswith("Num::from_num")
+        def is_cnt(x):
+            # Num::from_num(<the count parameter, possibly cast>)
+            if not (isinstance(x, tuple) and x[0] == "call" and x[1].endswith("Num::from_num") and len(x[2]) == 1):
+                return False
+            a = x[2][0]
+            while isinstance(a, tuple) and a[0] in ("cast", "ref", "deref", "clone"):
+                a = a[-1]
+            return a == ("arg", 2)
         if sn in ("partial_cmp", "lt", "le", "gt", "ge", "eq", "ne") and len(o[2]) == 2:
             l, r = o[2]
             while isinstance(l, tuple) and l[0] in ("ref", "deref", "clone"):
